@@ -13,8 +13,8 @@ LEVEL_NOTE = (
     'modelling conventions of DESIGN.md section 2.1. Python set iteration orders are recorded and passed to the model.')
 
 CLAIMS = {
-    'C01': ('proof', 'Lean theorems on the model of find_or_add/_ite/apply (DDProps/C01) + apply table regenerated from source and re-proved by decide + correspondence of model and code on exhaustive operand pairs and histories', 'Lean 4 proof + regenerated tables + differential correspondence'),
-    'C02': ('proof', 'canonicity theorem for the model invariant (DDProps/C02) + preservation by the modelled operations + exact-state correspondence; routes oracle on the real code', 'Lean 4 proof + differential correspondence'),
+    'C01': ('proof', 'Lean theorems on the model of find_or_add/_ite/apply (DDProps/C01), also after every history with reorderings and with dynamic reordering switched on and off (Histories2) + apply table regenerated from source and re-proved by decide + correspondence of model and code on exhaustive operand pairs, histories, wide managers (30-80 variables, diagrams of thousands of nodes, sampled-assignment oracle)', 'Lean 4 proof + regenerated tables + differential correspondence'),
+    'C02': ('proof', 'canonicity theorem for the model invariant (DDProps/C02) + preservation by every modelled operation incl. reorderings, undeclare_vars, copy.copy(bdd), BDD.reduction, update_predecessors; every-history forms over histories with swaps / sifting / reorder-to-order / configure; exact-state correspondence; routes oracle on the real code; wide managers and large diagrams', 'Lean 4 proof + differential correspondence'),
     'C03': ('proof', 'quantification on the model (DDProps/C03) tied by exhaustive 3-variable correspondence', 'Lean 4 proof + differential correspondence'),
     'C04': ('proof', 'cofactor/compose/rename on the model (DDProps/C04) tied by exhaustive 3-variable correspondence', 'Lean 4 proof + differential correspondence'),
     'C05': ('proof', 'Lean model of the lexer (driven by the regenerated token tables) and a Pratt parser parametrised by the regenerated precedence table; print/parse round trip proved for every syntax tree, precedence table = documented table by decide, add_expr = bottom-up evaluation of the tree read, to_expr text = ite-unfolding; PLY/astutils tied by exhaustive short token strings and generated formulas; the semantic half (meaning of the evaluated tree) is stated, its pieces are the C01/C03/C04 theorems', 'Lean 4 proof + regenerated tables + differential correspondence'),
@@ -25,12 +25,12 @@ CLAIMS = {
     'C10': ('proof', 'support/count/pick_iter on the model (DDProps/C10) tied by exhaustive 3-variable correspondence', 'Lean 4 proof + differential correspondence'),
     'C11': ('proof', 'copy between managers on the model (DDProps/C11: same function by name for any two orders and any target content, target canonical, shared memo; copy_vars reproduces names and levels) tied by correspondence over order pairs', 'Lean 4 proof + differential correspondence'),
     'C12': ('proof', 'abstract file-content model of pickle / whole-manager / JSON dumps and loads (the harness re-reads the files the real code wrote and feeds the same content to the model); pickle load proved at full strength for any levels flag, any target order, constant and absent roots; manager round trip unconditional; JSON dump and JSON load (both load_order values) and the JSON round trip proved for receiving managers with dynamic reordering not enabled, exact counts after every kind of load; reordering-enabled JSON targets tied by correspondence', 'Lean 4 proof + differential correspondence'),
-    'C13': ('proof', 'image/preimage on the model (DDProps/C13) tied by exhaustive one-pair correspondence; imageF/image proved for any order, preimage proved under the hypotheses that exclude findings F5 and F5b (both refuted in Lean on concrete witnesses)', 'Lean 4 proof + differential correspondence'),
+    'C13': ('proof', 'image/preimage on the model (DDProps/C13): image proved for any order, preimage proved at full strength under its literal preconditions for any order, any renaming and any target (the fused recursion where it is valid, rename/conjoin/quantify otherwise: repairs of F4d, F5, F5b); tied by exhaustive one-pair correspondence and sampled 2-3 pairs on arbitrary and padded orders', 'Lean 4 proof + differential correspondence'),
     'C14': ('proof', 'add_var/undeclare_vars on the model (DDProps/C14) tied by interleaving correspondence', 'Lean 4 proof + differential correspondence'),
     'C15': ('proof', 'Lean model of dd.mdd.MDD (n-ary nodes, first edge regular, set allocator with recorded pop schedule) and of bdd_to_mdd; MInv, find_or_add / ite / apply (regenerated table) / canonicity / collection (either root sign) proved, every reachable MDD state good; bdd_to_mdd proved correct AND total (no assertion of the code can fire) for any setting of dynamic reordering (reorder into zones via the C07 sort theorem, cofactors follow edges only), held BDD functions preserved; tied by exact-state correspondence and an evaluation oracle on every integer assignment', 'Lean 4 proof + regenerated tables + differential correspondence'),
     'C16': ('proof', 'abstract DDDMP file model (header tables, node list, re-indexing, bottom-up rebuild, root translation) with C16_load_spec proved for every well-formed file and numbering; text files tied by correspondence (the harness writes text and abstract encodings from the same data)', 'Lean 4 proof + differential correspondence'),
     'C17': ('proof', 'total step functions: a rejected call keeps invariant, order, counts and every reference (DDProps/C17), reordering off (every user operation, every history) and ON (generic theorem for the decorator: failure before the request, after it, or in the retry after sifting; reordering stays enabled) + rejected add_var / undeclare_vars / swap / reorder / load change nothing; tied by malformed-call injection incl. partly valid calls and a trigger sweep of rejected calls', 'Lean 4 proof + differential correspondence'),
-    'C19': ('proof', 'source-level only (the C extensions cannot be built here): translators over the four .pyx files regenerate Lean tables on every run; cApply_sound / cVocab / refTraces_balanced re-decided on them; partial by nature: relative to the line-structured reader and the hand-written C API semantics; nothing is executed', 'Lean 4 decide over tables regenerated from the .pyx sources'),
+    'C19': ('proof', 'source-level only (the C extensions cannot be built here): translators over the four .pyx files regenerate Lean tables on every run; cApply_sound / cVocab / cQuant_roles (every back end, after the repair of F6) / refTraces_balanced / refTraces_noFloatingUse / cacheTags_distinct re-decided on them; the 7 functions the reader cannot follow are pinned by text fingerprint to a review by hand (uncovered_reviewed); partial by nature: relative to the line-structured reader and the hand-written C API semantics; nothing is executed', 'Lean 4 decide over tables regenerated from the .pyx sources'),
     'C18': ('proof', 'structural views on the model (DDProps/C18) tied by re-reading the exported graphs', 'Lean 4 proof + differential correspondence'),
 }
 
